@@ -470,6 +470,11 @@ def run_timefreq(case):
         if mode == 'standardized':
             t1, t2 = t1 / sd1, t2 / sd2
         base_rt = base_rt + 64 * ceps * max(1.0, amp / (np.abs(t1).max() + np.abs(t2).max() + 1e-300)) * (1 + math.log2(n + 1))
+        # absolute error of every centred / standardized sample (cancellation in x - mean): it does not shrink with the sample itself,
+        # so rows whose transformed values are much smaller than the others cannot be judged relative to their own magnitude only
+        dz = 64 * ceps * amp * (1 + math.log2(n + 1))
+    else:
+        dz = 0.0
     l1, l2 = len(f1), len(f2)
     if op == 'Xcorr':
         if l1 % 2 == 1:
@@ -507,6 +512,9 @@ def run_timefreq(case):
     if not t.check(out.shape == exp.shape, 'timefreq_shape', lambda: dict(info, got=out.shape, expected=exp.shape)):
         return t.result()
     tl = base_rt * max(l1 + l2, 2) * scale + 1e-300
+    if dz:
+        tsum = np.sum(np.abs(t1), 1, keepdims=True) + np.sum(np.abs(t2), 1, keepdims=True)
+        tl = tl + (2 * dz * (l1 + l2) if op == 'MaxCorr' else 4 * dz * (tsum + dz * (l1 + l2)))
     bad = np.abs(out.astype(float) - exp) > tl
     t.metric('timefreq_ratio', float(np.max(np.abs(out.astype(float) - exp) / tl)))
     t.check(not bad.any(), 'timefreq_value', lambda: _diff(info, out.astype(float), exp, None, bad))
